@@ -330,6 +330,11 @@ pub trait Prop: Sync {
     fn isolate_runs(&self) -> bool {
         true
     }
+    /// Relative cost of executing a case once (shrinking works within a budget of cost units, so that
+    /// minimising a case with millions of elements stays bounded — deterministically, not by a clock).
+    fn cost(&self, _case: &Self::Case) -> u64 {
+        1
+    }
     /// Which distinct-set is the "distinct non-trivial cases" measure.
     fn nontrivial_set(&self) -> &'static str {
         "nontrivial_cases"
@@ -816,15 +821,17 @@ pub fn shrink_case<P: Prop>(p: &P, case: &P::Case, v: &Violation) -> (P::Case, V
             }
         }
     }
-    let mut budget = 4000usize;
+    let mut budget: u64 = 4000;
     let mut progress = true;
     while progress && budget > 0 {
         progress = false;
         for cand in p.shrink(&best) {
-            if budget == 0 {
+            let c = p.cost(&cand).max(1);
+            if budget < c {
+                budget = 0;
                 break;
             }
-            budget -= 1;
+            budget -= c;
             let mut st = Stats::new();
             if let Err(v2) = exec_guarded(p, &cand, &mut st) {
                 if v2.class == best_v.class {
